@@ -15,7 +15,7 @@ from ..absint import eval_term
 from ..facts import AnalysisError
 from ..terms import const, contains, show, strip_sites
 from ..util import InlineOnly, NoInline, P, Scan, calls_to, engine, loc, param_at, sched_targets
-from .C10 import ANN, INST, timing_leaf
+from .C10 import ANN, INST, TIMING_VALUATIONS, timing_leaf
 
 PROTO = "sd.ServiceDiscoveryProtocol"
 
@@ -63,6 +63,13 @@ def check(run, prog, tier):
             ok = rv is not None and rv[0] == "call" and rv[1] == ("bound", ("attr", me, "service"), smf.qual) and rv[2] == (ent,)
             run.ob("F1", f"{mf.qual}:ready-means-service-matches", ok, loc(mf),
                    "a ready instance matches exactly when its service description matches the find entry" if ok else f"ready: returns {show(rv) if rv else p.outcome}")
+    # the predicate itself: exhaustive wildcard table of Service.matches_find (rule set of C19)
+    from . import C19
+    e19 = engine(prog, InlineOnly(names=(), props=True, max_depth=3))
+    before = len(run.obs)
+    C19._table(run, prog, e19, "matches_find", "find")
+    for o in run.obs[before:]:
+        o.rule = "F1"
     # typestate shared with C10-O3
     stop = prog.lookup_method(INST, "stop")
     ot = prog.lookup_method(INST, "_offer_task")
@@ -135,8 +142,9 @@ def check(run, prog, tier):
                     okd = e.sched == "later"
                     if okd:
                         try:
-                            d = eval_term(e.delay, timing_leaf(annme))
-                            okd = d == ("uniform", 17, 19)
+                            for V in TIMING_VALUATIONS:
+                                d = eval_term(e.delay, timing_leaf(annme, valuation=V))
+                                okd = okd and d == ("uniform", V["REQUEST_RESPONSE_DELAY_MIN"], V["REQUEST_RESPONSE_DELAY_MAX"])
                         except AnalysisError:
                             okd = False
                     if not okd:
